@@ -18,6 +18,7 @@ import VProofs.Lemmas.EvalFmtString
 import VProofs.Lemmas.EvalFmtIff
 import VProofs.Lemmas.EvalFmtShortest
 import VProofs.Lemmas.EvalFmtExponent
+import VProofs.Lemmas.EvalFmtSeventeen
 /-!
 # C20 — Command-line tools agree with the library, line by line
 
@@ -382,6 +383,24 @@ theorem C20_eval_display_shortest_partial (s : Bool) (a : Nat) (hd : F64.IsDoubl
     (hlen : ds'.length < (f64ShortestDigits a).1.length) (hdig : ∀ d ∈ ds', d < 10) (hne : ds' ≠ []) :
     decimalToF64 ds' e' ≠ .fin false a :=
   FmtL.display_shortest_found a ha hd.1 hd.2 hok ds' e' hlen hdig hne
+
+/-- … and the hypothesis always holds (`FmtL.found_within_fuel`): seventeen digits suffice for every double.  At the scale
+`10^(e−17)` the spacing of the decimals is at most `a·10^-16`; the rounding interval of `a = c·2^t` is `2^t` wide and
+`a < 2^53·2^t`, `2^53 < 10^16` (just above a power of two the interval is `¾·2^t` wide, but there `a = 2^52·2^t` and
+`4·2^52 < 3·10^16`), so one of the two neighbours `⌊x·10^(17−e)⌋`, `⌈x·10^(17−e)⌉` of the double lies strictly inside.
+Hence, unconditionally: the printed digit string is a SHORTEST one — for every finite non-zero double `a` no digit string with
+fewer digits than `format_shortest` produces reads back as `a`, whatever its exponent -/
+theorem C20_eval_display_shortest (s : Bool) (a : Nat) (hd : F64.IsDouble (.fin s a)) (ha : 0 < a)
+    (ds' : List Nat) (e' : Int)
+    (hlen : ds'.length < (f64ShortestDigits a).1.length) (hdig : ∀ d ∈ ds', d < 10) (hne : ds' ≠ []) :
+    decimalToF64 ds' e' ≠ .fin false a :=
+  FmtL.display_shortest_found a ha hd.1 hd.2 (FmtL.found_within_fuel a ha hd.2) ds' e' hlen hdig hne
+
+/-- so the fall-back of `f64ShortestDec` to the exact expansion is dead code on doubles, and the printed text has at most
+seventeen significant digits -/
+theorem C20_eval_display_at_most_17 (s : Bool) (a : Nat) (hd : F64.IsDouble (.fin s a)) (ha : 0 < a) :
+    FmtL.f64ShortestFoundWithinFuel a = true ∧ (f64ShortestDigits a).1.length ≤ 17 :=
+  ⟨FmtL.found_within_fuel a ha hd.2, FmtL.digits_le_17 a ha hd.2⟩
 
 /-- the hypothesis holds for: 1.0, the least subnormal, the least normal number, the largest double, 0.1, 1/3, 2/3, 2^53,
 `(2^51 + 1)/4` (the tie of `F64Fmt.lean`) -/
